@@ -144,10 +144,13 @@ structure MapsOut where
   probes : List (Nat × Option Nat)
 
 /-- `get_stream::<MinidumpLinuxMaps>` followed by the lookups -/
-def readMapsOut (s : Bytes) : M MapsOut :=
-  readLinuxMapsX s >>= fun m =>
+def readMapsOutG (guarded : Bool) (s : Bytes) : M MapsOut :=
+  readLinuxMapsG guarded s >>= fun m =>
   mapsProbes m (mapsProbeAddrs m.entries) >>= fun ps =>
   pure ⟨m, ps⟩
+
+/-- … of the repository under test (`MAPS_GUARDED` is set by translators/maps_guard.py) -/
+def readMapsOut (s : Bytes) : M MapsOut := readMapsOutG MdModel.Gen.MapsGuard.MAPS_GUARDED s
 
 structure More where
   misc : Except Err MiscPrinted
